@@ -47,6 +47,7 @@ CONSTANTS V1, V2, V3, V4,  \* validators (model values); V4 is Byzantine
           P1, P2, P3, P4,  \* their voting powers
           MaxH, MaxR,
           MaxRestarts,
+          RestartResumes, \* FALSE = as-is: an engine restarted at heights 1 and 2 does not get its state machine back
           ByzKinds,       \* subset of {"prop", "pv", "pc"} the Byzantine validator uses
           ByzNil,         \* whether it also votes nil
           ByzOne,         \* bound: a node is shown at most one of its votes per kind and round (it still equivocates across nodes)
@@ -349,9 +350,15 @@ Elapse(s) ==
 -----------------------------------------------------------------------------
 (* ---- restart on the same stores [NewKernel + initializeRLC] ------------- *)
 
+\* As-is: tmengine.New passes the state machine a zero Genesis when the chain is already initialized
+\* [maybeInitializeChain], so its initial height is 0 and sendInitialActionSet fails on the finalization
+\* lookups for heights h-2 / h-3 below height 3: the state machine goroutine ends, the mirror runs on.
 Reboot(s) ==
   LET done == Len(s.fin) >= s.sh          \* a finalization is stored for the height in the state machine store
-      s0 == [s EXCEPT !.stopped = FALSE, !.pvd = FALSE, !.pcd = FALSE, !.finReq = FALSE, !.finCur = FALSE, !.due = FALSE,
+      bootH == IF done THEN s.sh + 1 ELSE s.sh
+      s0 == IF ~RestartResumes /\ bootH <= 2
+            THEN [s EXCEPT !.stopped = TRUE, !.step = "DEAD", !.vis = FALSE, !.ev = "none", !.due = FALSE]
+            ELSE [s EXCEPT !.stopped = FALSE, !.pvd = FALSE, !.pcd = FALSE, !.finReq = FALSE, !.finCur = FALSE, !.due = FALSE,
                       !.vis = FALSE, !.ev = "none", !.step = "ENTER",
                       !.sh = IF done THEN @ + 1 ELSE @, !.sr = IF done THEN 0 ELSE @]
   IN s0
@@ -373,7 +380,7 @@ Obs(s, A) == [mh |-> MH(s), mr |-> s.mr, chain |-> s.chain, sh |-> s.sh, sr |-> 
 SMNeedsView(s) == s.step \in {"AP", "APV", "PVD", "APC", "PCD"} \/ (s.step \in {"CW", "AF"} /\ ~s.finReq)
 \* prevotes are looked at only until the precommit decision of the round has been asked for (a restart
 \* re-derives the step from the whole view, so nothing is dropped while restarts remain)
-PastPrevotes(s, m, left) == m.k = "pv" /\ left = 0 /\ m.h = s.sh /\ m.r = s.sr /\ s.step \in {"APC", "PCD", "CW", "AF"}
+PastPrevotes(s, m, left) == m.k = "pv" /\ (left = 0 \/ ~RestartResumes) /\ m.h = s.sh /\ m.r = s.sr /\ s.step \in {"APC", "PCD", "CW", "AF"}
 Alive(s, m, left) ==
    /\ ~PastPrevotes(s, m, left)
    /\ \/ (m.h = MH(s) /\ m.r \in {s.mr, s.mr + 1} /\ MH(s) <= MaxH)
@@ -411,28 +418,43 @@ Soup == sent \cup ByzMsgs
 OnePerSet(s, S) == ByzOne => \A m \in S : (m.s \in Byz /\ m.k # "prop") =>
                       ~\E x \in (s.K \cup S) \ {m} : x.s = m.s /\ x.k = m.k /\ x.h = m.h /\ x.r = m.r
 
-\* the comparisons the code makes on one (kind, round) slice of a message set; d = 0 for the voting round,
-\* 1 for the round after it [handle*ViewUpdate, checkVotingPrecommitViewShift, check*ViewShift of the next round]
-Ind(X, k, h, r, d) ==
-  LET V == {m \in X : m.h = h /\ m.r = r}
-  IN IF k = "prop" THEN <<PHs(V), {}>>
-     ELSE IF d = 1 THEN <<{t \in Targets : k = "pc" /\ PowT(V, k, t) >= Maj}, {L \in {Min} : TotalK(V, k) >= L}>>
-     ELSE IF k = "pv" THEN <<{t \in Targets : PowT(V, k, t) >= Maj}, {L \in {Maj} : TotalK(V, k) >= L}>>
-     ELSE <<{<<t, L>> \in Targets \X {Maj, Maj - WeakMirror, Maj - WeakSM} : PowT(V, k, t) >= L}
-             \cup {<<Nil, 0>> : x \in {y \in V : AnyTarget /\ y.k = "pc" /\ y.v # Nil}},
-            {L \in {Min, Maj, Maj - WeakSM, Total} : TotalK(V, k) >= L}
-             \cup {100 + CommitPow(V) : x \in {1} \cap (IF AnyTarget THEN {1} ELSE {})}>>
-EachNeeded(s, S) == \A m \in S : Ind(s.K \cup S, m.k, m.h, m.r, m.r - s.mr) # Ind(s.K \cup (S \ {m}), m.k, m.h, m.r, m.r - s.mr)
-
 Deliverable(s, n) == {m \in Soup : m \notin s.K /\ m.s # n /\ Relevant(s, m)}
 SmallSets(X) == {S \in SUBSET X : Cardinality(S) \in 1..3}
+
+\* Batches of votes of kind k for round r (d = 0: the voting round, 1: the round after it) that carry some
+\* quantity the code compares [handle*ViewUpdate, checkVotingPrecommitViewShift, check*ViewShift of the next
+\* round] across its threshold, every message of the batch being needed for that.
+VoteCands(s, D, k, r, d) ==
+  LET cur == {m \in s.K : m.k = k /\ m.h = MH(s) /\ m.r = r}
+      avail == {m \in D : m.k = k /\ m.r = r}
+      sigT(t) == {m.s : m \in {x \in cur : x.v = t}}
+      sigAll == {m.s : m \in cur}
+      sigNN == {m.s : m \in {x \in cur : x.v # Nil}}
+      newT(Q, t) == {m.s : m \in {x \in Q : x.v = t}}
+      newAll(Q) == {m.s : m \in Q}
+      LvT == IF d = 1 THEN (IF k = "pc" THEN {Maj} ELSE {}) ELSE IF k = "pv" THEN {Maj} ELSE {Maj, Maj - WeakMirror, Maj - WeakSM}
+      LvA == IF d = 1 THEN {Min} ELSE IF k = "pv" THEN {Maj} ELSE {Min, Maj, Maj - WeakSM, Total}
+      okT(Q) == \E t \in Targets, L \in LvT :
+                   /\ \A q \in Q : q.v = t
+                   /\ PowOf(sigT(t)) < L /\ PowOf(sigT(t) \cup newT(Q, t)) >= L
+                   /\ \A q \in Q : PowOf(sigT(t) \cup newT(Q \ {q}, t)) < L
+      okA(Q) == \E L \in LvA :
+                   /\ PowOf(sigAll) < L /\ PowOf(sigAll \cup newAll(Q)) >= L
+                   /\ \A q \in Q : PowOf(sigAll \cup newAll(Q \ {q})) < L
+      okN(Q) == /\ AnyTarget /\ k = "pc" /\ d = 0 /\ \A q \in Q : q.v # Nil
+                /\ PowOf(sigNN) < Maj - WeakMirror /\ PowOf(sigNN \cup newAll(Q)) >= Maj - WeakMirror
+                /\ \A q \in Q : PowOf(sigNN \cup newAll(Q \ {q})) < Maj - WeakMirror
+  IN {Q \in SmallSets(avail) : okT(Q) \/ okA(Q) \/ okN(Q)}
+
 Cands(s, n) ==
   LET D == Deliverable(s, n)
-      props == {m \in D : m.k = "prop"}
-      slice(k, r) == {m \in D : m.k = k /\ m.r = r}
-      votes == UNION {SmallSets(slice(k, r)) : k \in {"pv", "pc"}, r \in {s.mr, s.mr + 1}}
-      withHdr == {S \cup {p} : S \in SmallSets(slice("pc", s.mr)), p \in {x \in props : x.r = s.mr}}
-  IN {S \in {{p} : p \in props} \cup votes \cup withHdr : OnePerSet(s, S) /\ EachNeeded(s, S)}
+      props == {m \in D : m.k = "prop" /\ m.v \notin PHs(ViewOf(s, m.h, m.r))}
+      votes == UNION {VoteCands(s, D, k, s.mr + d, d) : k \in {"pv", "pc"}, d \in {0, 1}}
+      \* precommits for a block together with its header (neither may do anything alone)
+      withHdr == {Q \cup {p} : Q \in {X \in VoteCands(s, D, "pc", s.mr, 0) : \A q \in X : q.v # Nil},
+                               p \in {x \in props : x.r = s.mr}}
+  IN {S \in {{p} : p \in props} \cup votes \cup {W \in withHdr : \A q \in W : q.k = "prop" \/ \A p \in W : p.k # "prop" \/ p.v = q.v \/ AnyTarget}
+        : OnePerSet(s, S)}
 
 Ctl(s) == <<s.mr, s.chain, s.cr, s.sh, s.sr, s.step, s.pvd, s.pcd, s.finCur, s.finReq, s.lockV, s.lockR, s.acts, s.fin, s.stopped>>
 
